@@ -96,9 +96,17 @@ class Lane:
 
 # =============================================================== trusted CPython primitives
 
+def cp_step(ctx, quick_step):
+    """stride of a code-point sweep: 1 in the thorough tier, 11 when a quick run was intensified because the
+    code was edited (check.py sets ctx.sweep = False then), the lane's own stride in the quick tier"""
+    if ctx.thorough:
+        return 1 if getattr(ctx, 'sweep', True) else 11
+    return quick_step
+
+
 def lane_cpython_utf8(ctx):
     ln = Lane('cpython.utf8')
-    step = 1 if ctx.thorough else 97
+    step = cp_step(ctx, 97)
     cps = set(range(0, 0x110000, step)) | set(G.CODEPOINTS) | set(range(0xd7f0, 0xe010)) | set(range(0, 0x900))
     for c in sorted(cps):
         s = chr(c)
@@ -152,7 +160,7 @@ def lane_cpython_f32(ctx):
 def lane_cpython_regex(ctx):
     ln = Lane('cpython.regex')
     rx = constants.DOMAIN_REGEX
-    cps = range(0, 0x110000) if ctx.thorough else list(range(0, 0x3000)) + ctx.gen.r.sample(range(0x3000, 0x110000), 2000)
+    cps = range(0, 0x110000, cp_step(ctx, 1)) if ctx.thorough else list(range(0, 0x3000)) + ctx.gen.r.sample(range(0x3000, 0x110000), 2000)
     for name in ('exchange-name', 'queue-name'):
         pat = rx[name]
         for c in cps:
@@ -310,7 +318,7 @@ def lane_dec_prim(ctx):
         for d in datas:
             ln.add('dec.prim %s %s' % (name, hexb(d)), outcome(fn, d, show=show_dec), '%s(%r)' % (name, d), name)
     # every code point (thorough) / the special ones + a stride (quick) at the start, middle and end of a string
-    cps = range(0x110000) if ctx.thorough else sorted(set(G.CODEPOINTS) | set(range(0, 0x110000, 257)))
+    cps = sorted(set(G.CODEPOINTS) | set(range(0, 0x110000, cp_step(ctx, 257))))
     for c in cps:
         if 0xD800 <= c < 0xE000:
             continue
